@@ -124,6 +124,26 @@ pub fn generate_ml_dsa_keypair() -> Result<(MlDsaPublicKey, MlDsaSecretKey)> {
     Ok((public_key, secret_key))
 }
 
+/// Generate an ML-DSA-65 key pair deterministically from a 32-byte seed.
+///
+/// This is the key generation of FIPS 204 (`ML-DSA.KeyGen_internal`) run on the given
+/// seed instead of on fresh randomness: the same seed always gives the same key pair,
+/// and the secret key signs what the public key verifies.
+pub fn ml_dsa_keypair_from_seed(seed: &[u8; 32]) -> Result<(MlDsaPublicKey, MlDsaSecretKey)> {
+    use saorsa_pqc::dsa_traits::{KeyGen, SerDes};
+
+    let (pk, sk) = saorsa_pqc::ml_dsa_65::KG::keygen_from_seed(seed);
+    let public_key = MlDsaPublicKey::from_bytes(&pk.into_bytes())
+        .map_err(|e| anyhow::anyhow!("Failed to build ML-DSA public key: {}", e))?;
+    let mut secret_bytes = sk.into_bytes();
+    let secret_key = MlDsaSecretKey::from_bytes(&secret_bytes);
+    secret_bytes.fill(0);
+    let secret_key =
+        secret_key.map_err(|e| anyhow::anyhow!("Failed to build ML-DSA secret key: {}", e))?;
+    register_debug_ml_dsa_keypair(&secret_key, &public_key);
+    Ok((public_key, secret_key))
+}
+
 /// Generate ML-KEM-768 key pair using ant-quic's implementation
 pub fn generate_ml_kem_keypair() -> Result<(MlKemPublicKey, MlKemSecretKey)> {
     let (public_key, secret_key) = ML_KEM
